@@ -8,6 +8,7 @@ with other sources / priorities / unit preferences / decoder instances and, for 
 second process with a different PYTHONHASHSEED: the hash must not move.  Map off => no hash."""
 from __future__ import annotations
 
+import itertools
 import json
 import os
 import re
@@ -61,6 +62,25 @@ def cases_for(defn, seed, deep=False):
                 yield combo, p, n
         keys = [i for i, f in enumerate(defn.fields) if f.pk and f.match is None]
         non = [i for i, f in enumerate(defn.fields) if not f.pk and f.match is None]
+        # two key fields at once over a grid of small raws: keys such as (1, 12) and (11, 2) must not meet
+        if b == "mid":
+            small = list(range(0, 13)) + [20, 21, 100, 101, 110, 111, 112, 120, 121]
+            for ka, kb in itertools.combinations(keys, 2):
+                fa, fb = defn.fields[ka], defn.fields[kb]
+                if not (isinstance(base[ka], int) and isinstance(base[kb], int)):
+                    continue
+                for va in small:
+                    if va >= (1 << fa.bits) - 1:
+                        break
+                    for vb in small:
+                        if vb >= (1 << fb.bits) - 1:
+                            break
+                        a = list(base)
+                        a[ka], a[kb] = va, vb
+                        p, n = payloads.build(defn, a)
+                        if (p, n) not in seen:
+                            seen.add((p, n))
+                            yield (ka, kb), p, n
         for ki in keys:
             for ni in non[:6]:
                 for kt in alph[ki][:3]:
@@ -223,7 +243,7 @@ def run(ctx):
     cov = {
         "states": tot["cases"], "transitions": tot["hashed"] + tot["variants"], "traces_validated_against_impl": tot["hashed"] + tot["variants"],
         "evaluations": tot["cases"] + tot["variants"], "distinct_nontrivial": tot["nontrivial"], "distinct_outcomes": len(glob),
-        "rule": "cases = payloads differing from bases mid/max in one field or in one key + one non-key field; hashed = those that decode; "
+        "rule": "cases = payloads differing from bases mid/max in one field, in one key + one non-key field, or in two key fields (grid of 22 small raws each); hashed = those that decode; "
                 "distinct_outcomes = distinct hashes seen; non-trivial = at least one field off base",
         "samples": samples, "definitions_with_key_fields": tot["key_defs"], "cross_process_payloads": len(xproc),
         "bound_completed": ("single-field deviations from 5 bases (<=12 raws per field, all for key fields), two-field deviations from base mid for definitions of <=12 fields, key x non-key pairs" if ctx.thorough else "all single-field deviations (<=5 raws per field, all for key fields) and key x non-key pairs from bases mid and max"), "exhaustive": True,
